@@ -404,7 +404,7 @@ impl Scenario for C18 {
     const ID: &'static str = "C18";
     const LEVEL: &'static str = "exploration";
     fn runs(tier: Tier) -> u64 {
-        tier.pick(4_000, 400_000)
+        tier.pick(60_000, 2_400_000)
     }
     fn profiles() -> &'static [Profile] {
         &[Profile::Dev, Profile::Release]
